@@ -19,6 +19,7 @@ def supE : Expr → Bool
   | .ffi _ _ _ args => supArgs args
   | .struct _ fields _ => supFields fields
   | .block ss e => supSs ss && supE e
+  | .mtch scrut arms => supE scrut && supArmsE arms
   | _ => false
 def supArgs : List Expr → Bool
   | [] => true
@@ -26,13 +27,22 @@ def supArgs : List Expr → Bool
 def supFields : List (Nat × Expr) → Bool
   | [] => true
   | (_, e) :: rest => supE e && supFields rest
+def supPat : Pat → Bool
+  | .default => true
+  | .values vs => supArgs vs
+def supArmsE : List (Pat × Expr) → Bool
+  | [] => true
+  | (p, e) :: rest => supPat p && supE e && supArmsE rest
+def supArmsS : List (Pat × List Stmt) → Bool
+  | [] => true
+  | (p, ss) :: rest => supPat p && supSs ss && supArmsS rest
 def supS : Stmt → Bool
   | .let_ _ e => supE e
   | .check c els => supE c && supE els
   | .ifS brs hasElse els => supBrs brs && (!hasElse || supSs els)
   | .ret e => supE e
   | .dassert e => supE e
-  | .mtch _ _ => false
+  | .mtch scrut arms => supE scrut && supArmsS arms
 def supSs : List Stmt → Bool
   | [] => true
   | s :: ss => supS s && supSs ss
@@ -75,6 +85,47 @@ def FieldsSim (n : Nat) : Prop :=
     Outcome S.m (evalFields S.m.p n env log d fields (.struct name fs)) base fr K
       (fun acc l => stAt (acc :: junk) base env fr K (wp + (compileFields S.m.p.structs wp c fields).code.length) l)
       (stAt (.struct name fs :: junk) base env fr K wp log)
+
+/-- the branching phase of a `match`, as a function of the patterns only -/
+def compileTestsP (sd : Defs) (wp c : Nat) : List Pat → Out × List Label
+  | [] => (⟨[], [], c⟩, [])
+  | .values vs :: rest =>
+    let V := compilePatVals sd wp (c + 1) (Label.anon c) vs
+    let R := compileTestsP sd (wp + V.code.length) V.c rest
+    (⟨V.code ++ R.1.code, V.defs ++ R.1.defs, R.1.c⟩, Label.anon c :: R.2)
+  | .default :: rest =>
+    let R := compileTestsP sd (wp + 1) (c + 1) rest
+    (⟨jmp (Label.anon c) :: R.1.code, R.1.defs, R.1.c⟩, Label.anon c :: R.2)
+
+def supPats : List Pat → Bool
+  | [] => true
+  | p :: ps => supPat p && supPats ps
+
+/-- the alternatives of one arm: the scrutinee `v` stays on top of the stack; a hit continues at
+the arm's address, a miss behind the tests -/
+def PatValsSim (n : Nat) : Prop :=
+  ∀ (vs : List Expr) (v : Val) (env : Env) (log : Log) (wp c : Nat) (arm : Label) (armAddr : Nat)
+    (junk base : List Val) (fr : List Env) (K : List Nat),
+    supArgs vs = true →
+    CodeAt S.labels S.m.prog wp (compilePatVals S.m.p.structs wp c arm vs).code →
+    DefsOk S.labels (compilePatVals S.m.p.structs wp c arm vs).defs →
+    lookupLabel S.labels arm = some armAddr →
+    Outcome S.m (matchVals S.m.p n env log v vs) base fr K
+      (fun b l => stAt (v :: junk) base env fr K
+        (if b then armAddr else wp + (compilePatVals S.m.p.structs wp c arm vs).code.length) l)
+      (stAt (v :: junk) base env fr K wp log)
+
+/-- arm selection: `addrOf k` is the address of arm number `k` -/
+def SelectSim (n : Nat) : Prop :=
+  ∀ (pats : List Pat) (v : Val) (env : Env) (log : Log) (wp c k0 : Nat) (addrOf : Nat → Nat)
+    (junk base : List Val) (fr : List Env) (K : List Nat),
+    supPats pats = true →
+    CodeAt S.labels S.m.prog wp (compileTestsP S.m.p.structs wp c pats).1.code →
+    DefsOk S.labels (compileTestsP S.m.p.structs wp c pats).1.defs →
+    (∀ i l, (compileTestsP S.m.p.structs wp c pats).2[i]? = some l → lookupLabel S.labels l = some (addrOf (k0 + i))) →
+    Outcome S.m (selectArm S.m.p n env log v pats k0) base fr K
+      (fun k l => stAt (v :: junk) base env fr K (addrOf k) l)
+      (stAt (v :: junk) base env fr K wp log)
 
 def StmtsSim (n : Nat) : Prop :=
   ∀ (ss : List Stmt) (env : Env) (log : Log) (wp c : Nat) (junk base : List Val) (fr : List Env) (K : List Nat),
@@ -157,9 +208,11 @@ structure AllSim (n : Nat) : Prop where
   br : BranchesSim S n
   body : BodySim S n
   fl : FieldsSim S n
+  pv : PatValsSim S n
+  sel : SelectSim S n
 
 theorem sim_zero : AllSim S 0 := by
-  refine ⟨?_, ?_, ?_, ?_, ?_, ?_, ?_, ?_⟩
+  refine ⟨?_, ?_, ?_, ?_, ?_, ?_, ?_, ?_, ?_, ?_⟩
   · intro e env log wp c junk base fr K _ _ _; simp [evalExpr, Outcome]
   · intro es env log wp c junk base fr K _ _ _; simp [evalArgs, Outcome]
   · intro ss env log wp c junk base fr K _ _ _; simp [evalStmts, Outcome]
@@ -168,6 +221,8 @@ theorem sim_zero : AllSim S 0 := by
   · intro brs hasElse els env log wp c endL endAddr junk base fr K _ _ _ _ _ _ _; simp [evalBranches, Outcome]
   · intro f vs log σ frs Kc entry _; simp [evalCall, BodyOutcome]
   · intro fields d name fs env log wp c junk base fr K _ _ _ _; simp [evalFields, Outcome]
+  · intro vs v env log wp c arm armAddr junk base fr K _ _ _ _; simp [matchVals, Outcome]
+  · intro pats v env log wp c k0 addrOf junk base fr K _ _ _ _; simp [selectArm, Outcome]
 
 macro "normpc" : tactic => `(tactic| simp only [List.length_append, List.length_cons, List.length_singleton, List.length_nil, ← Nat.add_assoc, Nat.add_zero, Nat.zero_add, Nat.reduceAdd])
 macro "normpc" "at" h:ident : tactic => `(tactic| simp only [List.length_append, List.length_cons, List.length_singleton, List.length_nil, ← Nat.add_assoc, Nat.add_zero, Nat.zero_add, Nat.reduceAdd] at $h:ident)
